@@ -87,6 +87,16 @@ func vInstallReelectStandIns() {
 // message; every live follower's log is a copy of a prefix of the leader's
 // (each of them reconciled with every new leader); every message that was ever at or below the leader's HW is still on the
 // current leader, unchanged.
+var vReVariants bool
+
+// VerifC02ReelectedVariants: the same harness with the third term's variations
+// switched on (the third replica may lead instead of a; the second leader may
+// be deposed alive and follow instead of crashing). Thorough tier only.
+func VerifC02ReelectedVariants() {
+	vReVariants = true
+	VerifC02Reelected()
+}
+
 func VerifC02Reelected() {
 	vInstallReelectStandIns()
 	timestamp = func() int64 { return 1000 }
@@ -272,7 +282,7 @@ func VerifC02Reelected() {
 	// tier, the third replica, which has followed two leaders by then); a crashed
 	// replica stays listed in sync until the leader has it removed
 	third := "a"
-	if vParam("third", 0) == 1 && vChoose(2) == 1 {
+	if (vParam("third", 0) == 1 || vReVariants) && vChoose(2) == 1 {
 		third = other
 		vCover("third-replica-leads")
 	}
@@ -283,7 +293,7 @@ func VerifC02Reelected() {
 		}
 	}
 	canShrink := second
-	if vParam("secondalive", 0) == 1 && vChoose(2) == 1 {
+	if (vParam("secondalive", 0) == 1 || vReVariants) && vChoose(2) == 1 {
 		followers3 = append(followers3, second)
 		canShrink = ""
 		vCover("second-leader-deposed-alive")
